@@ -12,7 +12,7 @@ RULE = ("one evaluation = one well-formed tree encoded by WriteEncoder and decod
         "non-trivial = has attribute/child/content and uses a non-token string or a size/list boundary class; distinct by tree hash")
 ASSUMPTIONS = ["inputs are well-formed per the quantifier (non-empty Latin-1 strings not ending in '@', reserved words excluded)",
                "ProtocolTreeNode.__eq__ is not used as oracle; it is only required to answer True for trees found equal"]
-REQUIRED = ["sibling_trees", "stream_end_frames", "trees_scribbled", "roundtrips", "layer_roundtrips", "feature:bin31", "feature:bin20", "feature:list16", "feature:hdr16",
+REQUIRED = ["bad_frames_between_stanzas", "bad_frames_refused", "sibling_trees", "stream_end_frames", "trees_scribbled", "roundtrips", "layer_roundtrips", "feature:bin31", "feature:bin20", "feature:list16", "feature:hdr16",
             "feature:s:token2", "feature:s:jid", "feature:s:nibble<128", "feature:s:hex<128"]
 TIMEOUT = {"quick": 900, "thorough": 7200}
 
@@ -168,6 +168,27 @@ def _check_tree(acc, cid, tree, enc, dec, via_layer=True):
             acc.count("stream_end_frames")
         except Exception as e:  # noqa
             acc.violation("stream-end-raises:%s" % type(e).__name__, "a stream-end frame between stanzas raised %r" % (e,), w)
+    if _scribble_counter[0] % 3 == 0:
+        # between two stanzas the long-lived decoder / receiving coder layer is handed a frame it must refuse (a peer or a damaged
+        # stream can produce one): this stanza's own bytes flagged as a segment, cut short, with an undefined token, or garbage
+        # under the deflate flag. Whether and how it refuses is not judged here (C02/C12 do); what is judged is every LATER case on
+        # the same objects, which must round-trip as if the refused frame had never been seen.
+        k = (_scribble_counter[0] // 3) % 5
+        body = bytes(out[1:])
+        bad = [bytes([1]) + body, bytes([0]) + body[:max(1, len(body) // 2)], bytes([0, 248, 2, 234, 5]), bytes([2]) + body[:40],
+               bytes([3]) + body[:7]][k]
+        if len(bad) < 100000:
+            for how in ("decoder", "layer"):
+                try:
+                    if how == "decoder":
+                        dec.getProtocolTreeNode(list(bad))
+                    else:
+                        coder_pair()[2].receive(bad)
+                    acc.count("bad_frames_accepted")
+                except Exception:  # noqa
+                    acc.count("bad_frames_refused")
+            acc.count("bad_frame_kind:%d" % k)
+            acc.count("bad_frames_between_stanzas")
     if _scribble_counter[0] % 13 == 0:
         # a string the wire format cannot carry (beyond Latin-1): the encoder refuses it, or what is decoded equals what was given;
         # never something else
@@ -276,6 +297,8 @@ def replay(spec, acc):
                 check_tree(acc, cid, tree, enc, dec)
     elif cid.startswith("rand/"):
         _, sh, i = cid.split("/")
+        if int(i) > 0:      # the case before it on the same objects (it may end with a refused frame that this case then trips over)
+            check_tree(acc, "rand/%s/%d" % (sh, int(i) - 1), rand_case(spec["seed"], int(sh), int(i) - 1, 1 << 21), enc, dec)
         check_tree(acc, cid, rand_case(spec["seed"], int(sh), int(i), 1 << 21), enc, dec)
     elif cid.startswith("huge/"):
         n = int(cid.split("/")[1])
